@@ -26,168 +26,11 @@ from ..mir import Program
 from ..report import Report
 from ..worlds import OracleWorld
 from . import C02, common, l4
+from ..label import InductionFailure, LabelWorld, shift_value  # noqa: F401
 
 CTX = "precis_core::context::"
 COMMON = "precis_core::common::"
 CTXERR = "precis_core::context::ContextRuleError"
-
-
-def shift_value(v, d):
-    def f(s):
-        n = s.name
-        if n == "offset":
-            return s
-        b, k = lin_parts(s)
-        if b == "offset":
-            return mk_lin("offset", k + d, s.ty)
-        if isinstance(n, tuple) and len(n) == 2 and n[0] == "at":
-            return Sym(("at", n[1] + d), s.ty)
-        return s
-
-    return au.map_value(v, f)
-
-
-class InductionFailure(AnalysisError):
-    """The iterations of a scan loop are not position-shifts of one another."""
-
-
-class LabelWorld(OracleWorld):
-    max_steps = 100000
-
-    def __init__(self, prog):
-        OracleWorld.__init__(self, prog)
-        self.inductions = []
-
-    # ---- predicates of precis_core::common on an atom
-    def call(self, m, st, callee, args, term):
-        p = callee["path"]
-        if p.startswith(COMMON) and p.count("::") == 2:
-            name = p.rsplit("::", 1)[1]
-            a = args[0]
-            if not (isinstance(a, Sym) and isinstance(a.name, tuple) and a.name[0] in ("at", "scan")):
-                raise AnalysisError("%s is asked about %r, not about a character of the label" % (name, a))
-            return ip.boolean(st.choose(("pred", name, a.name), [True, False]))
-        return OracleWorld.call(self, m, st, callee, args, term)
-
-    # ---- reading the label
-    def iter_nth(self, m, st, itref, n):
-        it = m.load(st, itref.loc) if isinstance(itref, Ref) else itref
-        if not (isinstance(it, Opq) and it.kind == "chars" and it.data[0] == Str(("label",))):
-            raise AnalysisError("nth on %r" % (it,))
-        if isinstance(n, Sym):
-            b, k = lin_parts(n)
-            if b != "offset":
-                raise AnalysisError("label read at %r, not at a position relative to the rule's own" % (n,))
-        else:
-            raise AnalysisError("label read at the absolute position %r" % (n,))
-        pres = self.present(st, k)
-        if pres is None:
-            pres = st.choose(("at", k), ["present", "absent"]) == "present"
-        st.emit(("read", k, pres))
-        if not pres:
-            return ip.none()
-        return ip.some(Sym(("at", k), "char"))
-
-    def present(self, st, k):
-        f = st.facts.get(("at", k))
-        if f is not None:
-            return f == "present"
-        known_present = [kk for (t, kk), v in ((key, v) for key, v in st.facts.items() if isinstance(key, tuple) and len(key) == 2 and key[0] == "at") if v == "present"]
-        known_absent = [kk for (t, kk), v in ((key, v) for key, v in st.facts.items() if isinstance(key, tuple) and len(key) == 2 and key[0] == "at") if v == "absent"]
-        if k >= 0:
-            if any(kk >= k for kk in known_present):
-                return True
-            if any(0 <= kk <= k for kk in known_absent):
-                return False
-            return None
-        # k < 0: position offset+k exists iff offset+k >= 0, provided the rule's own position exists
-        r = rng_get(st, Sym("offset", "usize"))
-        lo, hi = r[0][0], r[-1][1]
-        own = any(kk >= 0 for kk in known_present)
-        if lo + k >= 0 and own:
-            return True
-        if hi + k < 0:
-            return False
-        return None
-
-    def chars_next(self, m, st, itref):
-        n = st.ext.get("scan", 0) + 1
-        ans = st.choose(("scan-next", n), ["Some", "None"])
-        st.ext["scan"] = n
-        if ans == "None":
-            st.emit(("scan-end",))
-            return ip.none()
-        st.emit(("scan", n))
-        return ip.some(Sym(("scan", n), "char"))
-
-    # ---- loops
-    def loop_policy(self, body, head):
-        return "custom"
-
-    def loop_arrival(self, m, st, fr, target):
-        loops = dict(st.ext.get("loops") or {})
-        key = (fr.uid, target)
-        live = au.live_locals(st)[fr.uid] | set()
-        # liveness at the loop head itself
-        from .. import mir
-
-        live_in, _ = au._live_sets(fr.body)
-        live = set(live_in[target])
-        cur = {l: v for l, v in fr.locals.items() if l in live}
-        prev = loops.get(key)
-        if prev is None:
-            loops[key] = cur
-            loops[("facts",) + key] = dict(st.facts)
-            st.ext["loops"] = loops
-            st.consulted = set()
-            return None
-        facts1 = loops.get(("facts",) + key, {})
-        # whole-label scan: nothing but the scanned atoms changes
-        changed = [l for l in cur if cur[l] != prev.get(l)]
-        if not changed:
-            return Outcome("closed", None, st, "loop closed (state repeats)")
-        # shift induction
-        d = None
-        for l in changed:
-            a, b_ = prev.get(l), cur[l]
-            if isinstance(a, Sym) and isinstance(b_, Sym):
-                ba, ka = lin_parts(a)
-                bb, kb = lin_parts(b_)
-                if ba == bb == "offset":
-                    d = kb - ka
-                    break
-        if d is None:
-            raise InductionFailure("loop at bb%d of %s: the state changes from one round to the next but no position steps" % (target, fr.body.id))
-        for l in changed:
-            if shift_value(prev.get(l), d) != cur[l]:
-                raise InductionFailure("loop at bb%d of %s: `%s` is not the previous round's value shifted by %+d (the scan does not visit consecutive positions uniformly)" % (target, fr.body.id, fr.body.local_name(l), d))
-        # what the previous round knew about its character *and used* must also hold for this round's
-        # character; otherwise the previous round was a special case: re-anchor on this arrival and go on
-        special = None
-        for l in changed:
-            syms = []
-            au.map_value(prev.get(l), lambda s: (syms.append(s), s)[1])
-            for s in syms:
-                if isinstance(s.name, tuple) and len(s.name) == 2 and s.name[0] == "at":
-                    k = s.name[1]
-                    for fk, fv in list(facts1.items()):
-                        if isinstance(fk, tuple) and len(fk) == 3 and fk[0] == "pred" and fk[2] == ("at", k) and fk in st.consulted:
-                            if st.facts.get(("pred", fk[1], ("at", k + d))) != fv:
-                                special = fk[1]
-                    if ("rng", ("at", k)) in facts1 and any(isinstance(x, tuple) and len(x) >= 2 and x[0] == "cmp" and x[1] == ("at", k) for x in st.consulted):
-                        special = "code point"
-        if special is not None:
-            n = loops.get(("n",) + key, 0) + 1
-            if n > 3:
-                raise InductionFailure("loop at bb%d of %s: no two consecutive rounds are shifts of one another (round depends on %s known beforehand)" % (target, fr.body.id, special))
-            loops[("n",) + key] = n
-            loops[key] = cur
-            loops[("facts",) + key] = dict(st.facts)
-            st.ext["loops"] = loops
-            st.consulted = set()
-            return None
-        self.inductions.append({"fn": fr.body.id, "head": target, "step": d, "locals": [fr.body.local_name(l) for l in changed]})
-        return Outcome("closed", None, st, "closed by shift induction (step %+d)" % d)
 
 
 class Facts:
